@@ -3,6 +3,7 @@ package props
 import (
 	"fmt"
 	"go/token"
+	"go/types"
 
 	"golang.org/x/tools/go/ssa"
 
@@ -177,6 +178,39 @@ func runC16(c *eng.Ctx) {
 	}
 	c.Expect("MIRROR-slots", 3)
 
+	// ---------------------------------------------------------------- (3b) SCOPE-per-item
+	// The balancing steps are applied once per volume / per rack inside loops; the node lists and count tables handed to
+	// a step describe that one volume / rack. A list that is carried around the enclosing loop (declared outside it and
+	// appended to, never reset) would still hold the previous racks' servers.
+	nScope := 0
+	for _, name := range []string{"balanceEcShardsWithinRacks", "balanceEcShardsAcrossRacks", "balanceEcRacks", "deleteDuplicatedEcShards", "doBalanceEcShardsAcrossRacks", "doBalanceEcShardsWithinOneRack"} {
+		fn := c.NeedFunc("weed/shell", name)
+		if fn == nil {
+			continue
+		}
+		for _, in := range eng.Find(fn, func(in ssa.Instruction) bool { _, ok := in.(*ssa.Call); return ok }) {
+			call := in.(*ssa.Call)
+			callee := eng.StaticFn(call)
+			if callee == nil || callee.Pkg == nil || callee.Pkg != fn.Pkg || len(eng.CycleOf(call.Block())) == 0 {
+				continue
+			}
+			for ai, a := range call.Call.Args {
+				switch a.Type().Underlying().(type) {
+				case *types.Slice, *types.Map:
+				default:
+					continue
+				}
+				nScope++
+				phi := eng.CarriedAcross(a, call.Block(), 10)
+				c.Ob("SCOPE-per-item", fmt.Sprintf("%s %s arg#%d", eng.FuncName(fn), eng.Callee(call), ai), phi == nil, call.Pos(),
+					"the collection handed to a per-volume / per-rack step is built for that one item, not accumulated over the iterations of the enclosing loop"+ifs(phi != nil, ": carried around the loop at "+P.Pos(phiPos(phi))))
+			}
+		}
+	}
+	if nScope < 4 {
+		c.Undecided("SCOPE-per-item", "discovery", token.NoPos, fmt.Sprintf("only %d in-loop step calls with collection arguments found", nScope))
+	}
+
 	// ---------------------------------------------------------------- (4) PAIR-rack-count
 	if fn := c.NeedFunc("weed/shell", "doBalanceEcShardsAcrossRacks"); fn != nil {
 		mv := eng.Find(fn, eng.PlainCallTo("shell.pickOneEcNodeAndMoveOneShard"))
@@ -328,4 +362,19 @@ func sameDefs(a, b ssa.Value) bool {
 		}
 	}
 	return true
+}
+
+func phiPos(phi *ssa.Phi) token.Pos {
+	if phi == nil {
+		return token.NoPos
+	}
+	if phi.Pos().IsValid() {
+		return phi.Pos()
+	}
+	for _, in := range phi.Block().Instrs {
+		if in.Pos().IsValid() {
+			return in.Pos()
+		}
+	}
+	return token.NoPos
 }
